@@ -14,6 +14,8 @@ Every mode renders the entry template(s) with autoescaping *active everywhere*:
   region    Environment(autoescape=False), every template body inside {% autoescape true %} regions
   volatile  the same with {% autoescape fl %}, fl an environment global holding a truthy value (decided at runtime)
   segments  like region, but macro definitions stay outside the regions and only their bodies are wrapped
+  nested    Environment(autoescape=True), every body inside {% autoescape fl0 %}{% autoescape true %}...{% endautoescape %}{% endautoescape %}
+            with fl0 an environment global that is false at render time (the inner constant region must switch escaping back on)
 
 Oracle (DESIGN.md section 4, C15) on the text produced until the render ended (the template stream is consumed chunk by
 chunk, so output written before an allowed runtime error is judged too):
@@ -84,6 +86,7 @@ ATTR = re.compile(r"([A-Za-z][-A-Za-z0-9_:.]*)=\"(%s)\"" % _V)
 SEGMENT = re.compile("\x02([^\x02\x03]*)\x03")
 ENTITY = re.compile(r"&(?:amp|lt|gt|#34|#39);|\\u00(?:3c|3e|26|27)")
 
+REGION_MODES = ("region", "volatile", "segments", "nested")
 SELECT_EXTS = [".html", ".HTML", ".xml", ".Htm", ".tpl.XML", ".xhtml", "", ".j2", ".TXT.tpl"]
 FLAGS = [True, 1, "y", [0], 2.5]
 
@@ -120,12 +123,16 @@ def make_env(sources, mode, autoescape_on=True):
             ae = jinja2.select_autoescape(enabled_extensions=(), disabled_extensions=("txt",), default=bool(autoescape_on), default_for_string=False)
     elif m == "string":
         ae = jinja2.select_autoescape(enabled_extensions=("html",) if autoescape_on else (), default_for_string=bool(autoescape_on))
+    elif m == "nested":
+        ae = bool(autoescape_on)
     else:
         ae = False
     env = jinja2.Environment(loader=jinja2.DictLoader(sources), autoescape=ae, extensions=["jinja2.ext.loopcontrols"])
     env.policies["json.dumps_function"] = _dumps
     if m == "volatile":
         env.globals["fl"] = mode["flag"] if autoescape_on else False
+    if m == "nested":
+        env.globals["fl0"] = mode["flag"]
     return env
 
 
@@ -143,6 +150,11 @@ def mode_sources(templates, mode, autoescape_on=True):
         return escgen.print_templates(templates, wrap=flag, split_macros=(m == "segments")), "main", None
     if m == "volatile":
         return escgen.print_templates(templates, wrap="fl"), "main", None
+    if m == "nested" and autoescape_on:
+        # a constant-true region nested in a region whose runtime flag is false (environment autoescape=True): the whole
+        # body sits in the inner, active region, so all of the output is judged
+        inner = escgen.print_templates(templates, wrap="true")
+        return {n: "{% autoescape fl0 %}" + src + "{% endautoescape %}" for n, src in inner.items()}, "main", None
     return escgen.print_templates(templates), "main", None
 
 
@@ -322,7 +334,7 @@ def check_esc(case, known=False):
     if not known:
         if escgen.n1_class(templates):
             raise core.Excluded()  # known finding N1 / F48
-        if escgen.has_blocks(templates) and any(m["m"] in ("region", "volatile", "segments") for m in case["modes"]):
+        if escgen.has_blocks(templates) and any(m["m"] in REGION_MODES for m in case["modes"]):
             raise core.Excluded()  # known finding N2 / F49
     tokens = escgen.harvest_tokens(data)
     escgen.harvest_tokens(templates, tokens)
@@ -432,7 +444,9 @@ def modes(draw, full=True):
     """One mode per case (a second compile of the same program costs as much as a fresh case)."""
     if not full:
         return [draw(st.sampled_from([{"m": "static"}, {"m": "static"}, {"m": "select", "ext": ""}]))]
-    k = draw(st.integers(0, 16))
+    k = draw(st.integers(0, 18))
+    if k >= 17:
+        return [{"m": "nested", "flag": draw(st.sampled_from([False, 0, "", None]))}]
     if k <= 4:
         return [{"m": "static"}]
     if k <= 6:
@@ -453,7 +467,7 @@ def fit_modes(templates, ms, keep=1):
     (except, with keep == 0, programs with blocks: they stay, and check_case counts them as excluded for N2)."""
     if escgen.region_ok(templates) or (keep == 0 and escgen.has_blocks(templates)):
         return ms
-    return [m if m["m"] not in ("region", "volatile", "segments") else {"m": "select", "ext": SELECT_EXTS[len(m.get("m")) % len(SELECT_EXTS)]} for m in ms]
+    return [m if m["m"] not in REGION_MODES else {"m": "select", "ext": SELECT_EXTS[len(m.get("m")) % len(SELECT_EXTS)]} for m in ms]
 
 
 def esc_cases(size):
@@ -508,7 +522,7 @@ def floors(total, tier):
     missing = [f for f in REQUIRED_FILTERS if lab.get("f:" + f, 0) < 3]
     if missing:
         return "filters (almost) never generated: %s" % ", ".join(missing)
-    for need in ("mode:static", "mode:select", "mode:string", "mode:region", "mode:volatile", "mode:segments", "s:macro", "s:callblock", "s:caller",
+    for need in ("mode:static", "mode:select", "mode:string", "mode:region", "mode:volatile", "mode:segments", "mode:nested", "s:macro", "s:callblock", "s:caller",
                  "s:setblock", "s:filter", "s:include", "s:import", "s:from", "s:block", "s:super", "s:self", "s:recursive", "str_method",
                  "op:~", "op:+", "op:*", "op:%", "amp_rule", "tset:inherit", "tset:modules"):
         if lab.get(need, 0) < 10:
